@@ -417,3 +417,277 @@ def jsonable(o):
 
 __all__ = [n for n in dir() if not n.startswith("__")]
 _ = virocon
+
+
+# ==============================================================================================
+# highest-density-contour helpers shared by C02 and C15
+import math  # noqa: E402
+import warnings  # noqa: E402
+
+BIMODAL_2D = {
+    "dims": [
+        {"family": "Normal", "params": {"mu": 5.0, "sigma": 1.0}},
+        {"family": "Normal", "cond": 0, "fixed": {"mu": 3.0}, "dep": {"sigma": {"shape": "bump3", "coef": [0.2, 3.0, 0.3, 5.0]}}},
+    ]
+}
+EDGE_2D = {
+    "dims": [
+        {"family": "ExponentiatedWeibull", "params": {"alpha": 2.3341, "beta": 1.2419, "delta": 1.227}},
+        {"family": "ScipyGamma", "cond": 0, "fixed": {"a": 4.4727, "loc": 0.4188},
+         "dep": {"scale": {"shape": "exp3", "coef": [0.5347, 1.1458, -0.3923]}}},
+    ]
+}
+HDC_3D_FIXED = {
+    "dims": [
+        {"family": "Weibull", "params": {"alpha": 2.776, "beta": 1.471, "gamma": 0.8888}},
+        {"family": "LogNormal", "cond": 0, "fixed": {},
+         "dep": {"mu": {"shape": "power3", "coef": [0.1, 1.489, 0.1901]}, "sigma": {"shape": "exp3", "coef": [0.04, 0.1748, -0.2243]}}},
+        {"family": "Weibull", "cond": 0, "fixed": {"gamma": 0.0},
+         "dep": {"alpha": {"shape": "power3", "coef": [2.58, 0.12, 1.6]}, "beta": {"shape": "power3", "coef": [4.6, 2.05, 0.0]}}},
+    ]
+}
+
+
+def hdc_decode_limits(inputs):
+    lim = inputs.get("limits")
+    if lim is None:
+        return None
+    form = inputs.get("limits_form", "tuples")
+    if form == "tuples":
+        return [tuple(p) for p in lim]
+    if form == "lists":
+        return [list(p) for p in lim]
+    if form == "reversed":
+        return [(p[1], p[0]) for p in lim]
+    raise ValueError(form)
+
+
+def hdc_decode_deltas(inputs):
+    d = inputs.get("deltas")
+    if d is None:
+        return None
+    form = inputs.get("deltas_form", "list")
+    if form == "scalar":
+        return float(d)
+    if form == "list":
+        return [float(v) for v in d]
+    if form == "tuple":
+        return tuple(float(v) for v in d)
+    if form == "ndarray":
+        return np.array(d, dtype=float)
+    raise ValueError(form)
+
+
+def hdc_run(inputs):
+    """build the model and the real HighestDensityContour; returns (model, contour, runtime_warning_messages)."""
+    from virocon import HighestDensityContour
+
+    model = build_model(inputs["recipe"])
+    np.random.seed(int(inputs.get("global_seed", 0)))  # default limits use a Monte-Carlo marginal_icdf (global state)
+    limits = hdc_decode_limits(inputs)
+    deltas = hdc_decode_deltas(inputs)
+    with warnings.catch_warnings(record=True) as wl:
+        warnings.simplefilter("always")
+        if inputs.get("call") == "keywords":
+            con = HighestDensityContour(model=model, alpha=float(inputs["alpha"]), limits=limits, deltas=deltas)
+        else:
+            con = HighestDensityContour(model, float(inputs["alpha"]), limits, deltas)
+    msgs = [str(w.message) for w in wl if issubclass(w.category, RuntimeWarning) and "could not be reached" in str(w.message)]
+    return model, con, msgs
+
+
+def hdc_region(con, alpha):
+    """the enclosed region as the real code determines it: real cell_averaged_joint_pdf, real cumsum_biggest_until.
+
+    returns density f (cell averaged), cell_prob, mask (bool), reached (False: the RuntimeWarning path)"""
+    from virocon import HighestDensityContour
+
+    centers = con.cell_center_coordinates
+    f = np.array(con.cell_averaged_joint_pdf(centers), dtype=float)
+    cell_prob = f.copy()
+    for d in con.deltas:
+        cell_prob *= d
+    reached = True
+    with warnings.catch_warnings():
+        warnings.simplefilter("error")
+        try:
+            m, last = HighestDensityContour.cumsum_biggest_until(cell_prob, 1 - alpha)
+        except RuntimeWarning:
+            reached = False
+            m, last = np.ones_like(cell_prob), 0.0
+    return f, cell_prob, np.asarray(m) > 0.5, reached, float(last)
+
+
+def hdc_independent_cell_prob(recipe, centers, deltas):
+    """documented cell probability  prod_d [F_d(c + delta_d/2 | g) - F_d(c - delta_d/2 | g)],  g = centre of the conditioning cell,
+    from the recipe only: family cdfs with explicitly evaluated dependence functions, vectorised over the conditioning axis
+    (no ConditionalDistribution, no loop over conditioning values - a different route than the code under test)."""
+    n_dim = len(centers)
+    shape = [len(c) for c in centers]
+    out = np.ones(shape)
+    for d, spec in enumerate(recipe["dims"]):
+        fam = FAMILIES[spec["family"]]()
+        x = np.asarray(centers[d], dtype=float)
+        dx = float(deltas[d])
+        if spec.get("cond") is None:
+            pars = {k: float(v) for k, v in spec["params"].items()}
+            p = np.asarray(fam.cdf(x + 0.5 * dx, **pars)) - np.asarray(fam.cdf(x - 0.5 * dx, **pars))
+            sh = [1] * n_dim
+            sh[d] = len(x)
+            out = out * p.reshape(sh)
+        else:
+            c = int(spec["cond"])
+            g = np.asarray(centers[c], dtype=float)[:, None]
+            pars = {k: float(v) * np.ones_like(g) for k, v in spec.get("fixed", {}).items()}
+            for k, ds in spec["dep"].items():
+                pars[k] = eval_dep_spec(ds, g, spec["dep"])
+            p = np.asarray(fam.cdf(x[None, :] + 0.5 * dx, **pars)) - np.asarray(fam.cdf(x[None, :] - 0.5 * dx, **pars))  # (n_c, n_d)
+            sh = [1] * n_dim
+            sh[c] = len(g)
+            sh[d] = len(x)
+            p = p if c < d else p.T
+            out = out * p.reshape(sh)
+    return out
+
+
+def boundary_mask(region):
+    """region cells with at least one of the 3^n - 1 neighbours outside the region or outside the grid (plain numpy)."""
+    n = region.ndim
+    pad = np.pad(region, 1, mode="constant", constant_values=False)
+    all_in = np.ones(region.shape, dtype=bool)
+    core = tuple(slice(1, -1) for _ in range(n))
+    for off in itertools.product((-1, 0, 1), repeat=n):
+        if not any(off):
+            continue
+        sl = tuple(slice(1 + o, pad.shape[i] - 1 + o) for i, o in enumerate(off))
+        all_in &= pad[sl]
+    _ = core
+    return region & ~all_in
+
+
+def components(mask):
+    """connected components (3^n neighbourhood) of a boolean array; returns list of index arrays (k, n_dim)."""
+    from scipy import ndimage
+
+    lab, n = ndimage.label(mask, structure=np.ones((3,) * mask.ndim, dtype=bool))
+    return [np.argwhere(lab == i) for i in range(1, n + 1)]
+
+
+def fsum(a):
+    return math.fsum(np.asarray(a, dtype=float).ravel().tolist())
+
+
+def _sig(x, n=3):
+    if x == 0:
+        return 0.0
+    return float(f"{x:.{n}g}")
+
+
+def hdc_gen_scenarios(tier, seed, purpose):
+    """seeded HDC scenarios (json-able).  purpose "C02" or "C15" only changes the mix."""
+    from virocon import ISORMContour
+
+    rng = np.random.default_rng(seed)
+    scen = []
+
+    def bbox(recipe, alpha):
+        model = build_model(recipe)
+        n_dim = len(recipe["dims"])
+        a = max(alpha / 30.0, 1e-9)
+        X = ISORMContour(model, a, n_points=40 if n_dim == 2 else 60).coordinates
+        lo, hi = X.min(axis=0), X.max(axis=0)
+        out = []
+        for d, spec in enumerate(recipe["dims"]):
+            span = hi[d] - lo[d]
+            if spec["family"] in NONNEG and lo[d] - 0.1 * span < 0:
+                l = 0.0
+            else:
+                l = lo[d] - 0.1 * span
+            out.append([round(float(l), 3), round(float(hi[d] + 0.1 * span), 3)])
+        return out
+
+    def add(label, recipe, alpha, cells, limits="explicit", deltas_form="list", limits_form="tuples", iso=False, shrink=None, call="positional"):
+        n_dim = len(recipe["dims"])
+        sc = {"label": label, "recipe": recipe, "alpha": float(alpha), "global_seed": int(rng.integers(1 << 31)), "call": call}
+        box = bbox(recipe, alpha)
+        if shrink is not None:  # deliberately too small a grid: the RuntimeWarning path
+            box = [[b[0], round(b[0] + shrink * (b[1] - b[0]), 3)] for b in box]
+        if limits == "explicit":
+            sc["limits"] = box
+            sc["limits_form"] = limits_form
+        else:
+            sc["limits"] = None
+        if cells is None:
+            sc["deltas"] = None
+        else:
+            ds = [_sig((box[d][1] - box[d][0]) / cells[d]) for d in range(n_dim)]
+            spans = [box[d][1] - box[d][0] for d in range(n_dim)]
+            cap = 400 if n_dim == 2 else 120
+            if iso and max(spans) / min(spans) * 10 > cap:
+                iso = False  # one scalar cell size cannot give >= 10 and <= cap cells on every axis
+                sc["label"] = label.replace("-iso", "-aniso")
+            if iso:
+                # scalar cell size: cells[0] cells on the shortest axis (>= 10), at most cap on the longest
+                d_iso = max(min(spans) / max(cells[0], 10), max(spans) / cap)
+                sc["deltas"] = _sig(d_iso)
+                sc["deltas_form"] = "scalar"
+            else:
+                sc["deltas"] = ds
+                sc["deltas_form"] = deltas_form
+        scen.append(sc)
+
+    # ---- seed independent core
+    add("core/dnvgl-iso", DNVGL_HS_TZ, 1e-3, [100, 100], iso=True)
+    add("core/dnvgl-aniso-x", DNVGL_HS_TZ, 1e-3, [300, 30])
+    add("core/dnvgl-aniso-y", DNVGL_HS_TZ, 1e-3, [30, 300], deltas_form="tuple")
+    add("core/dnvgl-defaults", DNVGL_HS_TZ, 0.01, None, limits="default")
+    add("core/omae-vhs-default-limits", OMAE_V_HS, 1e-2, [120, 90], limits="default", deltas_form="ndarray")
+    add("core/bimodal", BIMODAL_2D, 0.25, [200, 200], iso=True)
+    add("core/bimodal-aniso", BIMODAL_2D, 0.25, [250, 100])
+    add("core/too-small-grid", DNVGL_HS_TZ, 1e-4, [60, 60], shrink=0.35)
+    # isotropic grid, region touching the lower grid edge (boundary two cells thick there)
+    scen.append({"label": "core/iso-region-at-grid-edge", "recipe": EDGE_2D, "alpha": 4.357466301854152e-06, "global_seed": 0, "call": "keywords",
+                 "limits": [[0.0, 27.05], [0.0, 44.671]], "limits_form": "lists", "deltas": 0.118, "deltas_form": "scalar"})
+    add("core/3d-iso", HDC_3D_FIXED, 1e-2, [40, 40, 40], iso=True)
+    add("core/3d-aniso", HDC_3D_FIXED, 1e-3, [120, 25, 12], deltas_form="tuple", limits_form="lists")
+    add("core/alpha-1e-6", OMAE_HS_TZ, 1e-6, [150, 150], limits_form="reversed")
+    add("core/alpha-0.3", DNVGL_HS_U, 0.3, [10, 10])
+
+    # ---- seeded
+    n2, n3 = (30, 12) if tier == "quick" else (300, 90)
+    forms = ["list", "tuple", "ndarray"]
+    lforms = ["tuples", "lists", "reversed"]
+    for i in range(n2):
+        cond = [None, 0] if rng.random() < 0.75 else [None, None]
+        rec = gen_recipe(rng, cond) if rng.random() < 0.75 else list(FIXED_2D.values())[int(rng.integers(4))]
+        alpha = float(10 ** rng.uniform(-6, np.log10(0.3)))
+        mode = rng.random()
+        big = 400 if tier == "thorough" else 160
+        if mode < 0.35:
+            c = int(rng.integers(10, big))
+            add("random/2d-iso", rec, alpha, [c, c], iso=True, limits_form=lforms[i % 3], call="keywords" if i % 2 else "positional")
+        elif mode < 0.8:
+            ratio = float(rng.uniform(1.5, 10))
+            c = int(rng.integers(10, 60))
+            cells = [int(c * ratio), c] if rng.random() < 0.5 else [c, int(c * ratio)]
+            add("random/2d-aniso", rec, alpha, cells, deltas_form=forms[i % 3], limits_form=lforms[i % 3])
+        elif mode < 0.9:
+            add("random/2d-default-limits", rec, max(alpha, 1e-4), [int(rng.integers(20, 150)), int(rng.integers(20, 150))], limits="default")
+        else:
+            add("random/2d-too-small", rec, alpha, [int(rng.integers(10, 80)), int(rng.integers(10, 80))], shrink=float(rng.uniform(0.2, 0.6)))
+    structs3 = structures(3)
+    for i in range(n3):
+        cond = structs3[(i + int(seed)) % len(structs3)]
+        rec = gen_recipe(rng, cond)
+        alpha = float(10 ** rng.uniform(-6, np.log10(0.3)))
+        if rng.random() < 0.4:
+            c = int(rng.integers(10, 50))
+            add("random/3d-iso", rec, alpha, [c, c, c], iso=True)
+        else:
+            cells = [int(v) for v in rng.permutation([int(rng.integers(40, 110)), int(rng.integers(10, 40)), int(rng.integers(10, 25))])]
+            add("random/3d-aniso", rec, alpha, cells, deltas_form=forms[i % 3], limits_form=lforms[i % 3])
+    _ = purpose
+    return scen
+
+
+__all__ = [n for n in dir() if not n.startswith("__")]
